@@ -270,7 +270,7 @@ def quick_straddles():
             + straddles(4, ["const"], ST_START[:1] + ST_END[:1], [(32, 0, 0x10)], ["JB"]))
 
 
-DIV_BRANCHES = [("q", 0x0, "JL"), ("q", 0x3, "JZ"), ("r", 0x0, "JL"), ("r", 0x1C, "JZ")]
+DIV_BRANCHES = [("q", 0x0, "JL"), ("q", 0x3, "JZ"), ("r", 0x0, "JL"), ("r", 0x1C, "JZ"), ("q", 0x40, "JZ")]
 DIV_BRANCHES_T = DIV_BRANCHES + [("q", 0x3, "JG"), ("q", 0xFFFFFFFD, "JZ"), ("r", 0x1C, "JB"), ("q", 0x0, "JZ")]
 DIV_INPUTS = [0x0, 328, 0xFBD1, 0x7FFF, 0x8000]
 
@@ -284,7 +284,7 @@ def quick_divisions():
 def quick_groups():
     """(program specs, strategies, initial inputs) groups of the quick tier."""
     return [
-        (quick_divisions(), ["branch"], [0x0, 0xFBD1]),
+        (quick_divisions(), ["branch"], [0x0, 328]),
         (quick_straddles(), ["branch"], INS),
         (singles("reg", ARITH[:5], CMPS[:4], JCCS[:7]), ["branch"], IN2),
         (singles("memdirect", ["none"], CMPS[:4], JCCS[:5]), ["branch"], IN2),
@@ -623,8 +623,22 @@ def check_one(spec, backend, strat, inp):
     ptxt = "program {%s } [%s, %s coverage, input %s = %#x]" % (" ;".join(l.strip() for l in src.splitlines()), backend, strat,
                                                                  "EAX" if spec_buf(spec) is None else "@%d[%#x]" % (8 * spec_buf(spec)[1], spec_buf(spec)[0]), inp)
     sk = skeleton(spec)
-    info = {"runs": 1, "errors": 0, "solutions": 0, "solutions_valid": 0, "constraints": 0, "nontrivial": 0, "fresh_runs": 0}
+    info = {"runs": 1, "errors": 0, "solutions": 0, "solutions_valid": 0, "constraints": 0, "nontrivial": 0, "fresh_runs": 0,
+            "solutions_into_generated_blocks": 0, "inputs_skipped_program_faults": 0}
     vs = []
+    if spec[0] == "division":
+        # x86 division faults (#DE) when the quotient does not fit: such an initial input is not a run of the property
+        fkey = ("fresh", tuple(spec), backend, inp)
+        if fkey not in _st:
+            info["fresh_runs"] += 1
+        ftrace, stopped, ferr = fresh_trace(spec, backend, inp)
+        if stopped != "end" or ferr:
+            info["inputs_skipped_program_faults"] = 1
+            return vs, info
+    # which model the solver returns depends on the history of its context: every run gets a fresh z3 context, so
+    # that a case behaves in a replay process exactly as it did in the middle of the enumeration
+    import z3
+    z3.z3._main_ctx = None
     trace, dse, err = dse_run(spec, backend, strat, inp)
     if err is not None:
         info["errors"] += 1
@@ -642,19 +656,29 @@ def check_one(spec, backend, strat, inp):
         except Exception as e:
             vs.append(violation("solution:model-unreadable:%s:%s" % (type(e).__name__, sk), "%s: solution %s: %r" % (ptxt, _hx(addrs), e), case))
             continue
+        if addrs[-1] is None:
+            # destination = an IR block generated inside one instruction (e.g. the #DE arm of IDIV): it has no address,
+            # the dispatch trace cannot show whether it was entered
+            info["solutions_into_generated_blocks"] += 1
+            continue
         fkey = ("fresh", tuple(spec), backend, newinp)
         if fkey not in _st:
             info["fresh_runs"] += 1
         ftrace, stopped, ferr = fresh_trace(spec, backend, newinp)
+        real = [x for x in addrs if x is not None]      # generated blocks on the way are invisible in the trace
         if strat == "code":
             ok = addrs[0] in ftrace
             want = "reach %#x" % addrs[0]
         elif strat == "branch":
-            ok = any(ftrace[i] == addrs[0] and ftrace[i + 1] == addrs[1] for i in range(len(ftrace) - 1))
-            want = "go from %s to %s" % (_hx(addrs[:1]), _hx(addrs[1:]))
+            if addrs[0] is None:
+                ok = addrs[1] in ftrace
+                want = "reach %#x (from a generated block)" % addrs[1]
+            else:
+                ok = any(ftrace[i] == addrs[0] and ftrace[i + 1] == addrs[1] for i in range(len(ftrace) - 1))
+                want = "go from %s to %s" % (_hx(addrs[:1]), _hx(addrs[1:]))
         else:
-            ok = ftrace[:len(addrs)] == addrs
-            want = "start with the path %s" % _hx(addrs)
+            ok = ftrace[:len(real)] == real
+            want = "start with the path %s" % _hx(real)
         if ok:
             info["solutions_valid"] += 1
         else:
@@ -761,6 +785,8 @@ def _run(ctx):
         "path_constraints_recorded": tot.get("constraints", 0),
         "solutions_produced": tot.get("solutions", 0),
         "solutions_replayed_valid": tot.get("solutions_valid", 0),
+        "solutions_into_generated_ir_blocks_not_replayable": tot.get("solutions_into_generated_blocks", 0),
+        "initial_inputs_skipped_division_faults": tot.get("inputs_skipped_program_faults", 0),
         "fresh_jitter_runs": tot.get("fresh_runs", 0),
         "distinct_outcomes": len(outcomes),
         "violating_runs_by_signature": sigcount,
